@@ -12,7 +12,7 @@ CLAIMED = {
  "C08": dict(cat="model_checking", tech="TLC model checking of the config-object state machine + transition-cover replay + TLC trace validation at byte level",
              text="TextFormats.tla gives the byte grammar (render/parse) and the object under set_value; TLC checks round-trip, "
                   "canonical reproduction, the all-and-only law of set_value and query agreement on every reachable state of a bounded "
-                  "model; one history per transition of that model, random configurations and the fixtures are executed on the real "
+                  "model (thorough: histories of every length, fixpoint); one history per transition of that model, random configurations and the fixtures are executed on the real "
                   "ConfigFile/EXL and every call's arguments and results are validated by TLC against the specification.",
              note="Trusts TLC, gen/text.py (independent renderer), the shim's projection; quantifier limited to distinct category names and text without structural characters.",
              ref="5 C08"),
@@ -44,8 +44,8 @@ CLAIMED = {
              note="Trusts TLC, gen/zipatch.py's decoder, the shim's tree snapshot.",
              ref="5 C04"),
  "C01": dict(cat="model_checking", tech="TLC model checking of the GameData handle (disk, memo, reply) + transition-cover replay + TLC trace validation with the specification's own path hashing",
-             text="SqPack.tla defines path resolution, keys and the reference answers; MC_SqPack explores every query history of <= 3 calls over 913 "
-                  "layouts with the implementation-shaped memoised search and checks AnswerIsReference, HistoryFree, CaseFree, FallbackToBase. One history "
+             text="SqPack.tla defines path resolution, keys and the reference answers; MC_SqPack explores every query history over 913 "
+                  "layouts (quick: <= 3 calls; thorough: no bound - the memo saturates and TLC reaches the fixpoint over (layout, memo, last call) states) with the implementation-shaped memoised search and checks AnswerIsReference, HistoryFree, CaseFree, FallbackToBase. One history "
                   "per transition of that model and stratified random installations are written to disk by an independent SqPack writer, queried "
                   "through the real GameData, and TLC recomputes category, repository, file, JAMCRC key, entry and location for every answer.",
              note="Trusts TLC, gen/sqpack.py (layout recalled from public docs), the shim; index-type position unverifiable offline (written at both candidates).",
@@ -112,7 +112,7 @@ CLAIMED = {
              ref="5 C17"),
  "C18": dict(cat="fault_enumeration", tech="fault space enumerated by TLC from Faults.tla over generated assets and archive files + isolated-worker execution + TLC validation of the outcome contract incl. residual heap; inflate lifecycle model-checked",
              text="Same construction as C17 over the game assets and the archive: field maps of generated valid bases (model, four texture formats, EXH, EXD with "
-                  "read_row on every id, index, dat entries of each kind), arbitrary and magic-prefixed blobs for every asset entry point, and installation fault "
+                  "read_row on every id, index, dat entries of each kind, materials, shader package, skeleton containers, deformer, terrain, layer group; all drawn from a fixed stream so that the run does not depend on VERIF_SEED), arbitrary and magic-prefixed blobs for every asset entry point, and installation fault "
                   "sequences (missing / truncated index and dat at structure boundaries, stray directories). The block reader's inflate lifecycle (no live stream on "
                   "return, also on failure) is model-checked; the real residual heap after a failed read is observed through malloc's accounting.",
              note="Trusts TLC, the supervisor/worker, mallinfo2 for residual heap (4 KiB slack). Formats without a generator yet are exercised with blobs only. Known findings listed per entry point.",
